@@ -49,7 +49,7 @@ PROPS = {
         "proof_module": "GeoProofs.Props.C01All",
         "theorems": ["Geo.containsPoint_fold_perm", "Geo.ringContainsPoint_hit_iff", "Geo.ringContainsPoint_hit_iff_none", "Geo.ringContainsPoint_hit_iff_quadtree", "Geo.ringContainsPoint_idx_on", "Geo.rectRing_containsPoint_iff", "Geo.polyContainsPoint_iff", "Geo.lineContainsPoint_iff", "Geo.rectContainsPoint_iff", "Geo.ringContainsPoint_index_indep", "Geo.ringContainsPoint_hit_iff_rtree", "Geo.polyContainsPoint_iff_rtree", "Geo.lineContainsPoint_iff_rtree", "Geo.c01_leaf_point_relations", "Geo.c01_obj_point_exact", "Geo.c01_obj_point_exact_shape", "Geo.Geom.C01Cfg.member_eq", "Geo.c01Cfg_poly_none", "Geo.c01Cfg_line_none", "Geo.c01Cfg_line_dyadic", "Geo.c01Cfg_poly_dyadic", "Geo.c01_point_relations_agree", "Geo.c01_intersects_point_all", "Geo.c01_contains_point_all", "Geo.c01_point_intersects_all"],
         "trivial_sigs": set(),
-        "claim": "Proof (Lean 4): for every vertex list, every query point and every index kind/threshold the model's ring/polygon/line/rect membership equals the crossing-parity specification (ringContainsPoint_hit_iff, polyContainsPoint_iff, lineContainsPoint_iff; index independence via the C04 search-exactness theorems, which hold for all finite doubles); at object level all eight relations of every leaf kind with a Point / SimplePoint equal that specification, and collections / features answer iff some geometry leaf has the position as a member (Props/C01Obj*.lean). The membership code itself (ringContainsPoint, Poly.ContainsPoint hole loop, Line.ContainsPoint) is regenerated from ring.go / poly.go / line.go and proved equal to the model (RingBridge, GlueBridge, LineBridge). Tie: exhaustive small-lattice and random correspondence at geometry and object level under 8 index configurations, and under the representation options at object level.",
+        "claim": "Proof (Lean 4): for every vertex list, every query point and every index kind/threshold the model's ring/polygon/line/rect membership equals the crossing-parity specification (ringContainsPoint_hit_iff, polyContainsPoint_iff, lineContainsPoint_iff; index independence via the C04 search-exactness theorems, which hold for all finite doubles); at object level all eight relations of every leaf kind with a Point / SimplePoint equal that specification, and collections / features answer iff some geometry leaf has the position as a member (Props/C01Obj*.lean); membership is index independent for every shape kind with no ring condition, and a moved shape contains the translated point iff the shape contains the point (Props/C01Move.lean). The membership code itself (ringContainsPoint, Poly.ContainsPoint hole loop, Line.ContainsPoint) is regenerated from ring.go / poly.go / line.go and proved equal to the model (RingBridge, GlueBridge, LineBridge). Tie: exhaustive small-lattice and random correspondence at geometry and object level under 8 index configurations, and under the representation options at object level.",
         "rule": "every ring of 3..4 vertices (5 thorough) on the 3x3 lattice against all 49 half-step query points, rotating through "
                 "index configurations; random lines, rects, arbitrary and valid polygons (with holes, >=64 vertices) under 8 index "
                 "configurations whose answers must agree; non-trivial = distinct (shape, query) case",
@@ -58,12 +58,12 @@ PROPS = {
     "C04": {
         "suites": ["c04"],
         "level": "proof",
-        "extra_modules": [{"module": "GeoProofs.Props.IndexBridge", "theorems": ["Geo.IndexBridge.rect_expand", "Geo.IndexBridge.rect_contains", "Geo.IndexBridge.rect_intersects", "Geo.IndexBridge.rect_largestAxis", "Geo.IndexBridge.rect_recalc", "Geo.IndexBridge.rect_chooseLeast", "Geo.IndexBridge.rect_split", "Geo.IndexBridge.rtree_tie_nan", "Geo.IndexBridge.rect_insert", "Geo.IndexBridge.rtree_Insert", "Geo.IndexBridge.rtree_build_eq", "Geo.IndexBridge.appendFloat", "Geo.IndexBridge.rect_compress", "Geo.IndexBridge.rtree_compress", "Geo.IndexBridge.rnCompressSearch", "Geo.IndexBridge.rCompressSearch", "Geo.IGlue.split_right_empty", "Geo.IndexBridge.numBytes", "Geo.IndexBridge.chooseQuad", "Geo.IndexBridge.quadBounds", "Geo.IndexBridge.appendNum", "Geo.IndexBridge.readNum", "Geo.IndexBridge.compress", "Geo.IndexBridge.compressSearch", "Geo.IndexBridge.insert", "Geo.IndexBridge.quadtree_build_eq", "Geo.IGlue.compress_differs_2pow32"]}, {"module": "GeoProofs.Props.SeriesBridge", "theorems": ["Geo.SeriesBridge.search", "Geo.SeriesBridge.buildIndex", "Geo.SeriesBridge.buildIndex_built", "Geo.SeriesBridge.makeSeries_opts", "Geo.SeriesBridge.makeSeries_nil", "Geo.SeriesBridge.move", "Geo.SeriesBridge.header_buildIndexBytes", "Geo.SeriesBridge.inv_makeSeries", "Geo.SeriesBridge.inv_move"]}],
+        "extra_modules": [{"module": "GeoProofs.Props.IndexBridge", "theorems": ["Geo.IndexBridge.rect_expand", "Geo.IndexBridge.rect_contains", "Geo.IndexBridge.rect_intersects", "Geo.IndexBridge.rect_largestAxis", "Geo.IndexBridge.rect_recalc", "Geo.IndexBridge.rect_chooseLeast", "Geo.IndexBridge.rect_split", "Geo.IndexBridge.rtree_tie_nan", "Geo.IndexBridge.rect_insert", "Geo.IndexBridge.rtree_Insert", "Geo.IndexBridge.rtree_build_eq", "Geo.IndexBridge.appendFloat", "Geo.IndexBridge.rect_compress", "Geo.IndexBridge.rtree_compress", "Geo.IndexBridge.rnCompressSearch", "Geo.IndexBridge.rCompressSearch", "Geo.IGlue.split_right_empty", "Geo.IndexBridge.numBytes", "Geo.IndexBridge.chooseQuad", "Geo.IndexBridge.quadBounds", "Geo.IndexBridge.appendNum", "Geo.IndexBridge.readNum", "Geo.IndexBridge.compress", "Geo.IndexBridge.compressSearch", "Geo.IndexBridge.insert", "Geo.IndexBridge.quadtree_build_eq", "Geo.IGlue.compress_differs_2pow32"]}, {"module": "GeoProofs.Props.SeriesBridge", "theorems": ["Geo.SeriesBridge.search", "Geo.SeriesBridge.buildIndex", "Geo.SeriesBridge.buildIndex_built", "Geo.SeriesBridge.makeSeries_opts", "Geo.SeriesBridge.makeSeries_nil", "Geo.SeriesBridge.move", "Geo.SeriesBridge.header_buildIndexBytes", "Geo.SeriesBridge.inv_makeSeries", "Geo.SeriesBridge.inv_move"]}, {"module": "GeoProofs.Props.C04Move", "theorems": ["Geo.Series.move_pts", "Geo.Series.move_closed", "Geo.Series.move_cases", "Geo.mkSeries_index_some_size", "Geo.Series.move_eq_mkSeries", "Geo.Series.move_search_exact_dyadic", "Geo.buildIndexBytes_rtree_header", "Geo.Series.move_rtree_eq"]}],
         "translators": [{"name": "index", "out": "IndexGen.lean"}, {"name": "seriesmeth", "out": "SeriesMethGen.lean"}],
         "proof_module": "GeoProofs.Props.C04All",
         "theorems": ["Geo.qtree_search_exact", "Geo.rtree_search_exact", "Geo.rtree_search_exact_of_NE", "Geo.rBuild_items_counterexample", "Geo.readNum_appendNum", "Geo.qSearchTree_eq_foldUntil", "Geo.qVisit_perm_filter", "Geo.qInsert_inv", "Geo.qInsert_items", "Geo.qBuild_spec", "Geo.rSearchTree_eq_foldUntil", "Geo.rVisit_eq_filter", "Geo.splitEntries_perm", "Geo.rBuild_spec'", "Geo.series_search_exact_none", "Geo.series_search_exact_quadtree", "Geo.series_search_exact_rtree", "Geo.segBox_inside_rect", "Geo.series_search_exact_rtree_dyadic", "Geo.series_search_exact_dyadic", "Geo.decF64_encF64", "Geo.rtree_search_exact_patched", "Geo.rBuild_good", "Geo.searchAny_perm", "Geo.searchAny_index_indep", "Geo.intersectsSegment_fold_perm", "Geo.ringIntersectsSegment_index_indep", "Geo.ringIntersectsSegmentS_index_indep", "Geo.ringIntersectsLine_index_indep", "Geo.ringIntersectsRing_index_indep", "Geo.lineIntersectsLine_index_indep", "Geo.lineContainsLine_index_indep", "Geo.lineContainsPoint_index_indep", "Geo.polyContainsPoint_index_indep", "Geo.polyIntersectsLine_index_indep", "Geo.polyIntersectsPoly_index_indep", "Geo.polyIntersectsRect_index_indep", "Geo.ringContainsSegment_index_indep", "Geo.ringContainsSegment_index_indep_simple", "Geo.ringContainsSegmentS_false_index_indep", "Geo.ringContainsRing_index_indep", "Geo.ringContainsLine_index_indep", "Geo.Geom.Sim.intersects", "Geo.Geom.Sim.contains", "Geo.geom_intersects_index_indep", "Geo.geom_intersects_index_indep₂", "Geo.geom_contains_index_indep", "Geo.geom_contains_index_indep₂", "Geo.geom_intersects_index_indep_sized", "Geo.geom_contains_index_indep_sized", "Geo.ringContainsSegmentS_eq_V", "Geo.ringContainsSegmentS_eq_L", "Geo.ringContainsSegment_order_dependent_counterexample", "Geo.pinched_unindexed", "Geo.ringContainsSegment_not_sim_invariant", "Geo.rtree_series_foldOn", "Geo.ring17_rOrder", "Geo.ringContainsSegment_rtree_vs_none", "Geo.ringContainsSegment_not_index_indep", "Geo.geom_contains_rtree_vs_none", "Geo.qtree_series_foldOn", "Geo.ring37_strip_order", "Geo.ringContainsSegment_quadtree_vs_none", "Geo.DF.instLawfulCarrierDbl", "Geo.DF.instSignExactSubDbl", "Geo.DF.ieee_sub_neg", "Geo.DF.ieee_sub_pos", "Geo.DF.decD_encD", "Geo.DF.qtree_search_exact_dbl", "Geo.DF.rtree_search_exact_dbl", "Geo.DF.rtree_search_exact_patched_dbl", "Geo.DF.gseries_search_exact", "Geo.DF.series_search_exact_dbl", "Geo.DF.C04_series_dbl", "Geo.DF.toFQ_sub", "Geo.DF.toFQ_mul", "Geo.DF.toFQ_mid"],
         "trivial_sigs": {"se0"},
-        "claim": "Proof (Lean 4), any carrier whose comparison is a strict weak order (nothing assumed about midpoints; R-tree: subtraction with exact sign), any size, any query: searching the compressed quadtree / R-tree bytes is the early-exit fold over a visit list that is a permutation of the brute-force filter, never an out-of-range read; codec round trip; series-level corollaries for all three index kinds. Tie: index BYTES and callback sequences compared with the implementation. Index independence of the predicates (Props/C04Indep.lean): Geom.intersects has the same answer under every index configuration for all 16 kind pairs; Geom.contains likewise when the left polygon's exterior and the right polygon's holes are convex or edge-simple; for self-touching rings the clause is false (kernel-checked counterexamples on the model's real R-tree and quadtree = known finding D20).",
+        "claim": "Proof (Lean 4), any carrier whose comparison is a strict weak order (nothing assumed about midpoints; R-tree: subtraction with exact sign), any size, any query: searching the compressed quadtree / R-tree bytes is the early-exit fold over a visit list that is a permutation of the brute-force filter, never an out-of-range read; codec round trip; series-level corollaries for all three index kinds; a moved series IS a freshly built series on the translated points and searches exactly (Props/C04Move.lean: Series.move_eq_mkSeries, Series.move_search_exact_dyadic). Tie: index BYTES and callback sequences compared with the implementation. Index independence of the predicates (Props/C04Indep.lean): Geom.intersects has the same answer under every index configuration for all 16 kind pairs; Geom.contains likewise when the left polygon's exterior and the right polygon's holes are convex or edge-simple; for self-touching rings the clause is false (kernel-checked counterexamples on the model's real R-tree and quadtree = known finding D20).",
         "rule": "series of sizes 0..1000 (..70000 thorough) in 7 layouts, open and closed, under no index / R-tree / quadtree: index bytes "
                 "compared with the model's, searches with strip, infinite, degenerate and empty queries at 4 stop positions; plus "
                 "implementation-only checks on arbitrary doubles; non-trivial = a search that visits at least one segment",
@@ -76,7 +76,7 @@ PROPS = {
         "proof_module": "GeoProofs.Props.C02All",
         "theorems": ["Geo.rect_intersects_rect_iff", "Geo.rect_intersects_rect_illformed", "Geo.rect_intersects_symm", "Geo.lineIntersectsLine_iff", "Geo.lineIntersectsLine_symm", "Geo.lineIntersectsLine_iff_mk", "Geo.point_intersects_iff", "Geo.point_intersects_line_iff", "Geo.point_intersects_rect_spec", "Geo.geom_intersects_symm_pointrect", "Geo.geom_intersects_dispatch_symm", "Geo.geom_intersects_symm_partial", "Geo.ringIntersectsSegment_sound", "Geo.ringIntersectsSegment_sound_mk", "Geo.vertex_on_segment", "Geo.ringIntersectsLine_sound", "Geo.ringIntersectsRing_sound", "Geo.edge_identity", "Geo.edge_flip", "Geo.parity_add_eq_crossings", "Geo.parity_const_of_avoids", "Geo.parity_flips_of_one_proper_crossing_idx", "Geo.parity_flips_of_one_proper_crossing", "Geo.inRing_const_of_avoids", "Geo.segment_outside_of_avoids", "Geo.segment_inside_of_avoids", "Geo.region_meets_segment_iff", "Geo.ringIntersectsSegment_exact_all", "Geo.ringIntersectsSegment_exact_indexed", "Geo.ringIntersectsSegment_exact", "Geo.ringIntersectsSegment_two_edges", "Geo.rectRingIntersectsSegment_exact", "Geo.rectRing_region", "Geo.rectRing_illformed", "Geo.ringIntersectsLine_exact_all", "Geo.ringIntersectsLine_exact", "Geo.rectRingIntersectsLine_exact", "Geo.ringIntersectsRing_exact_all", "Geo.ringIntersectsRing_exact", "Geo.rectRingIntersectsRing_exact", "Geo.regions_share_iff", "Geo.spec_meets_iff", "Geo.geom_intersects_iff_noholes", "Geo.geom_intersects_exact_noholes", "Geo.geom_intersects_symm_noholes", "Geo.ringContainsRing_strict_exact", "Geo.spec_meets_iff_holes", "Geo.geom_intersects_exact_holes_of_convexOK", "Geo.geom_intersects_symm_holes_of_convexOK", "Geo.holesConvexOK_of_nonconvex", "Geo.geom_intersects_exact_holes_of_nonconvex", "Geo.IX.convexOK_rect", "Geo.IX.two_edges_of_meets", "Geo.IX.regions_disjoint_of_boundaries_out", "Geo.IX.strict_nesting_rect", "Geo.IX.rect_filled_strict", "Geo.IX.region_inside_of_boundary_inside", "Geo.convexOK_of_support", "Geo.supportOK_of_simple", "Geo.convexOK_of_simple", "Geo.holesConvexOK_of_valid", "Geo.geom_intersects_exact_holes", "Geo.geom_intersects_symm_holes", "Geo.pentagram_not_convex"],
         "trivial_sigs": set(),
-        "claim": "Proof (Lean 4): for un-indexed shapes, intersects equals the exact point-set specification (share a point) for ALL 16 kind pairs of VALID shapes, holes included, with no further hypothesis (geom_intersects_exact_holes, symmetry as corollary geom_intersects_symm_holes): discrete Jordan lemma (GeoProofs/Jordan) + the convexity theorem for simple rings (GeoProofs/Convex: a simple ring whose turns all have one sign bounds a convex region; false without simplicity: pentagram_not_convex). Soundness of true for arbitrary (invalid) shapes; rect x rect, point x X, line x line exact for arbitrary inputs. Indexed shapes: via C04 index independence (unconditional for intersects). Tie: correspondence on generated pairs in contact configurations judged against the executable specification.",
+        "claim": "Proof (Lean 4): for un-indexed shapes, intersects equals the exact point-set specification (share a point) for ALL 16 kind pairs of VALID shapes, holes included, with no further hypothesis (geom_intersects_exact_holes, symmetry as corollary geom_intersects_symm_holes): discrete Jordan lemma (GeoProofs/Jordan) + the convexity theorem for simple rings (GeoProofs/Convex: a simple ring whose turns all have one sign bounds a convex region; false without simplicity: pentagram_not_convex). Soundness of true for arbitrary (invalid) shapes; rect x rect, point x X, line x line exact for arbitrary inputs. Indexed shapes: via C04 index independence (unconditional for intersects), stated outright in Props/C02Indexed.lean (geom_intersects_exact_indexed, geom_intersects_symm_indexed: any index configuration on either side). Tie: correspondence on generated pairs in contact configurations judged against the executable specification.",
         "rule": "sampled (thorough: all) ordered pairs of small shapes on the 3x3 lattice; generated polygons (rectangles, notched, "
                 "star-shaped, with holes) against probes built from their vertices, edge midpoints and nearby lattice points, both operand "
                 "orders, 5 index configurations; non-trivial = distinct pair judged by the exact oracle (both shapes valid)",
@@ -226,15 +226,34 @@ PROPS = {
     "C12": {
         "suites": ["c12"],
         "level": "proof",
-        "extra_modules": [{"module": "GeoProofs.Props.C12ReencContains", "theorems": ["Geo.convex_flag_reenc", "Geo.convexReceiver_reenc", "Geo.spec_covers_reenc", "Geo.geom_contains_reenc_convex", "Geo.geom_contains_reenc_counterexample", "Geo.geom_contains_reenc_counterexample_poly", "Geo.geom_contains_hole_order"]}, {"module": "GeoProofs.Props.C12Reenc", "theorems": ["Geo.ring_parity_reenc", "Geo.ring_inRing_reenc", "Geo.simpleRing_reenc", "Geo.member_reenc", "Geo.valid_reenc", "Geo.spec_meets_reenc", "Geo.geom_intersects_reenc", "Geo.geom_intersects_hole_order"]}],
+        "extra_modules": [{"module": "GeoProofs.Props.C12ReencContains", "theorems": ["Geo.convex_flag_reenc", "Geo.convexReceiver_reenc", "Geo.spec_covers_reenc", "Geo.geom_contains_reenc_convex", "Geo.geom_contains_reenc_counterexample", "Geo.geom_contains_reenc_counterexample_poly", "Geo.geom_contains_hole_order"]}, {"module": "GeoProofs.Props.C12Reenc", "theorems": ["Geo.ring_parity_reenc", "Geo.ring_inRing_reenc", "Geo.simpleRing_reenc", "Geo.member_reenc", "Geo.valid_reenc", "Geo.spec_meets_reenc", "Geo.geom_intersects_reenc", "Geo.geom_intersects_hole_order"]}, {"module": "GeoProofs.Props.C12Move", "theorems": ["Geo.C12Move.move_fields", "Geo.C12Move.move_pts", "Geo.C12Move.move_closed", "Geo.C12Move.move_convex_pp", "Geo.C12Move.move_clockwise_pp", "Geo.C12Move.move_rect_pp", "Geo.C12Move.processPoints_translate_flags", "Geo.C12Move.move_convex", "Geo.C12Move.move_clockwise", "Geo.C12Move.move_rect", "Geo.C12Move.move_rect_degenerate", "Geo.C12Move.translate_translate", "Geo.C12Move.translate_zero", "Geo.C12Move.move_move_pts", "Geo.C12Move.move_zero_pts", "Geo.C12Move.translate_inj", "Geo.C12Move.getElem!_map_translate", "Geo.C12Move.numSegmentsOf_translate", "Geo.C12Move.move_numSegments", "Geo.C12Move.numSegmentsOf_le", "Geo.C12Move.move_segmentAt_of_lt_size", "Geo.C12Move.move_segmentAt"]}, {"module": "GeoProofs.Props.C12MoveGeom", "theorems": ["Geo.C12MoveGeom.mv_eq_translate", "Geo.C12MoveGeom.SerCfg.moved_pts", "Geo.C12MoveGeom.SerCfg.moved_spec", "Geo.C12MoveGeom.moveGeom_build_eq", "Geo.C12MoveGeom.moved_plain", "Geo.C12MoveGeom.plain_built", "Geo.C12MoveGeom.moveGeom_build", "Geo.C12MoveGeom.MovedExact.exact", "Geo.C12MoveGeom.SerMovedSized.exact", "Geo.C12MoveGeom.movedExact_of_sized", "Geo.C12MoveGeom.geom_intersects_move", "Geo.C12MoveGeom.geom_intersects_move_sized", "Geo.C12MoveGeom.MovedExtSafe.extSafe", "Geo.C12MoveGeom.MovedHolesSafe.holesSafe", "Geo.C12MoveGeom.geom_contains_move", "Geo.C12MoveGeom.geom_contains_move_nonpoly"]}, {"module": "GeoProofs.Props.C12AffIndexed", "theorems": ["Geo.C12AffIndexed.plain_built", "Geo.C12AffIndexed.plain_mapPts", "Geo.C12AffIndexed.geom_intersects_aff_indexed", "Geo.C12AffIndexed.geom_contains_aff_indexed", "Geo.C12AffIndexed.geom_intersects_aff_mapPts", "Geo.C12AffIndexed.geom_intersects_translate_indexed", "Geo.C12AffIndexed.geom_intersects_scale_indexed", "Geo.C12AffIndexed.geom_contains_translate_indexed", "Geo.C12AffIndexed.geom_contains_scale_indexed"]}],
         "proof_module": "GeoProofs.Props.C12All",
         "theorems": ["Geo.raycast_translate", "Geo.raycast_scale", "Geo.raycast_translate_eq", "Geo.raycast_scale_eq", "Geo.segIntersectsS_translate", "Geo.segIntersectsS_scale", "Geo.segIntersects_translate", "Geo.segIntersects_scale", "Geo.collinearPt_translate", "Geo.collinearPt_scale", "Geo.segContainsSeg_translate", "Geo.segContainsSeg_scale", "Geo.onSeg_reflX", "Geo.onSeg_reflY", "Geo.onSeg_transpose", "Geo.segsMeet_reflX", "Geo.segsMeet_reflY", "Geo.segsMeet_transpose", "Geo.raycast_on_reflX", "Geo.raycast_on_reflY", "Geo.raycast_on_transpose", "Geo.segIntersects_reflX", "Geo.segIntersects_reflY", "Geo.segIntersects_transpose", "Geo.segContainsSeg_reflX", "Geo.segContainsSeg_reflY", "Geo.segContainsSeg_transpose", "Geo.lineIntersectsLine_of_symm", "Geo.lineIntersectsLine_reflX", "Geo.lineIntersectsLine_reflY", "Geo.lineIntersectsLine_transpose", "Geo.lineContainsPoint_of_symm", "Geo.lineContainsPoint_reflX", "Geo.lineContainsPoint_reflY", "Geo.lineContainsPoint_transpose", "Geo.raycast_inn_reflX_counterexample", "Geo.processPoints_translate", "Geo.processPoints_scale", "Geo.processPoints_map_empty", "Geo.convexSpec_reflX", "Geo.convexSpec_reflY", "Geo.convexSpec_transpose", "Geo.clockwiseSpec_reflX", "Geo.clockwiseSpec_reflY", "Geo.clockwiseSpec_transpose", "Geo.processPoints_reflX", "Geo.processPoints_reflY", "Geo.processPoints_transpose", "Geo.ringContainsPoint_translate", "Geo.ringContainsPoint_scale", "Geo.ringContainsPoint_translate_hit", "Geo.ringContainsPoint_scale_hit", "Geo.ringContainsSegment_aff", "Geo.ringIntersectsSegment_aff", "Geo.ringContainsRing_aff", "Geo.ringIntersectsRing_aff", "Geo.ringIntersectsLine_aff", "Geo.line_containsLineO_aff", "Geo.geom_contains_aff", "Geo.geom_intersects_aff", "Geo.geom_contains_translate", "Geo.geom_intersects_translate", "Geo.geom_contains_scale", "Geo.geom_intersects_scale", "Geo.raycast_inn_neg_scale_counterexample", "Geo.parity_left_eq_right", "Geo.parity_reflX", "Geo.parity_reflY", "Geo.parity_transpose", "Geo.parityUp_eq_parity", "Geo.parity_reflX_onBoundary_counterexample", "Geo.onBoundary_reflX", "Geo.onBoundary_reflY", "Geo.onBoundary_transpose", "Geo.inRing_reflX", "Geo.inRing_reflY", "Geo.inRing_transpose", "Geo.strictIn_reflX", "Geo.strictIn_reflY", "Geo.strictIn_transpose", "Geo.member_reflX", "Geo.member_reflY", "Geo.member_transpose", "Geo.member_reflX_illformed_rect", "Geo.valid_reflX", "Geo.valid_reflY", "Geo.valid_transpose", "Geo.holesConvexOK_reflX", "Geo.holesConvexOK_reflY", "Geo.holesConvexOK_transpose", "Geo.meets_reflX", "Geo.meets_reflY", "Geo.meets_transpose", "Geo.geom_intersects_reflX", "Geo.geom_intersects_reflY", "Geo.geom_intersects_transpose", "Geo.geom_intersects_reflX_noholes", "Geo.geom_intersects_reflY_noholes", "Geo.geom_intersects_transpose_noholes", "Geo.Sym.parity_map", "Geo.meets_reflX_of_valid", "Geo.geom_intersects_reflX_mapPts", "Geo.geom_intersects_reflY_mapPts", "Geo.geom_intersects_transpose_mapPts", "Geo.geom_mapPts_reflX_rect_wrong", "Geo.parity_rot90", "Geo.parity_neg", "Geo.geom_intersects_rot90", "Geo.geom_intersects_neg"],
         "trivial_sigs": set(),
-        "claim": "Partial proof (Lean 4): every kernel, membership, ring-level heuristic and the whole contains/intersects matrix are equivariant under translation and positive scaling (un-indexed shapes); crossing parity, ring and shape membership, validity, the meets specification and Geom.intersects are invariant under reflection in x, in y, transposition, quarter turn and point reflection (Props/C12Sym.lean); on-segment, segment intersection, line x line and line-contains-point likewise; convex/clockwise transform as expected. NOT proved: contains under reflections and start-vertex rotation (false in contact configurations: D4/D5/D13). Tie: metamorphic answer groups on the implementation.",
+        "claim": "Partial proof (Lean 4): every kernel, membership, ring-level heuristic and the whole contains/intersects matrix are equivariant under translation and positive scaling (un-indexed shapes; lifted to ANY index configuration on both sides of the equation in Props/C12AffIndexed.lean; via Move, whatever index the moved series rebuilds: Props/C12Move.lean, Props/C12MoveGeom.lean geom_intersects_move / geom_contains_move); crossing parity, ring and shape membership, validity, the meets specification and Geom.intersects are invariant under reflection in x, in y, transposition, quarter turn and point reflection (Props/C12Sym.lean; for indexed shapes Props/C12SymIndexed.lean); on-segment, segment intersection, line x line and line-contains-point likewise; convex/clockwise transform as expected. NOT proved: contains under reflections and start-vertex rotation (false in contact configurations: D4/D5/D13). Tie: metamorphic answer groups on the implementation.",
         "rule": "generated pairs under translation (also via Move), scaling by 2,4,1024, reflection in x, in y, transposition, every "
                 "rotation of the start vertex, reversal, dropped closing vertex: answers within a group must be identical",
     },
 }
+
+# late additions (Move at series / geometry level, see DESIGN.md section 0 "Move")
+PROPS["C03"].setdefault("extra_modules", []).append({"module": "GeoProofs.Props.C03Indexed", "theorems": [
+    "Geo.C03Indexed.geom_contains_indexed_any_valid", "Geo.C03Indexed.geom_contains_exact_rect_indexed",
+    "Geo.C03Indexed.geom_contains_indexed_any_valid_sized", "Geo.C03Indexed.geom_contains_exact_rect_indexed_sized"]})
+PROPS["C12"].setdefault("extra_modules", []).append({"module": "GeoProofs.Props.C12SymIndexed", "theorems": [
+    "Geo.C12SymIndexed.ofShape_plain", "Geo.C12SymIndexed.geom_intersects_sym_indexed", "Geo.C12SymIndexed.geom_intersects_sym_ofShape",
+    "Geo.C12SymIndexed.geom_intersects_reflX_indexed", "Geo.C12SymIndexed.geom_intersects_reflY_indexed",
+    "Geo.C12SymIndexed.geom_intersects_transpose_indexed", "Geo.C12SymIndexed.geom_intersects_rot90_indexed",
+    "Geo.C12SymIndexed.geom_intersects_neg_indexed", "Geo.C12SymIndexed.geom_intersects_rot90_indexed'",
+    "Geo.C12SymIndexed.geom_intersects_neg_indexed'", "Geo.C12SymIndexed.mapPts_rot90_eq", "Geo.C12SymIndexed.mapPts_neg_eq",
+    "Geo.C12SymIndexed.ofShape_exact_none"]})
+PROPS["C02"].setdefault("extra_modules", []).append({"module": "GeoProofs.Props.C02Indexed", "theorems": [
+    "Geo.C02Indexed.geom_intersects_exact_indexed", "Geo.C02Indexed.geom_intersects_symm_indexed",
+    "Geo.C02Indexed.geom_intersects_exact_indexed_sized", "Geo.C02Indexed.geom_intersects_symm_indexed_sized",
+    "Geo.C02Indexed.geom_intersects_indexed_any", "Geo.C02Indexed.geom_intersects_indexed_any_sized"]})
+PROPS["C01"].setdefault("extra_modules", []).append({"module": "GeoProofs.Props.C01Move", "theorems": [
+    "Geo.C01Move.geom_contains_point_index_indep", "Geo.C01Move.geom_contains_point_move",
+    "Geo.C01Move.geom_intersects_point_move", "Geo.buildIndexBytes_quadtree_header", "Geo.Series.move_quadtree_eq"]})
 
 
 def _def_of(ops, i, ident):
@@ -258,7 +277,7 @@ def _kind_of(ops, i, ident):
     return t[2]
 
 
-def mask_spec(pid, optoks, spec):
+def mask_spec(pid, optoks, spec, sig=""):
     """each property judges only its own part of a combined op"""
     if optoks and optoks[0].startswith("oparse"):
         if optoks[0] == "oparserv":
@@ -267,7 +286,14 @@ def mask_spec(pid, optoks, spec):
     if optoks and optoks[0] == "oattrs":
         if pid == "C10":
             t = spec.split(" ")
-            return "-- - - " + t[3] if len(t) >= 4 else "-"      # collections compose the point count
+            # collections compose: emptiness (first flag; validity is C11's), the rectangle (union of the
+            # non-empty children's) and the point count (sum) -- seed W18-2 was caught by C10 only as a broken
+            # correspondence while the rectangle clause is part of C10's own statement
+            # (not for objects the model flags "holeout": there the executable specification is the tight box of
+            # ALL positions (C11's reading, finding D15) while C10's clause is relative to the children's Rect())
+            if len(t) >= 4 and len(t[0]) == 2 and ":holeout" not in sig:
+                return t[0][:1] + "- " + t[1] + " - " + t[3]
+            return "-- - - " + t[3] if len(t) >= 4 else "-"
         return spec if pid == "C11" else "-"
     if optoks and optoks[0] == "opred":
         return spec if pid == "C10" else "-"
